@@ -36,12 +36,17 @@ def check(ctx, cases):
         by_id[c["id"]] = c
         recs.append({"id": c["id"], "kind": "c01", "layout": c["abs"]["layout"], "groups": c["abs"]["groups"],
                      "exc": o["exc"], "obs_layout": o["obs_layout"], "n_e": o["n_e"], "tracts": o["tracts"],
-                     "pretty_exc": o["pretty_exc"], "pretty": o["pretty"]})
+                     "pretty_exc": o["pretty_exc"], "pretty": o["pretty"], "plines": o.get("plines") or []})
         ctx.nontrivial.add(c["args"]["text"])
-    fails, _ = ctx.validate("PlssDocTrace", recs, CONSTS, invariants=("Verdict",))
+    fails, drifts = ctx.validate("PlssDocTrace", recs, CONSTS, invariants=("Verdict", "Drift"))
     for cid, clause, *_ in fails:
         o = obs[cid]
         ctx.violation(by_id[cid], clause, {"observed": {k: o.get(k) for k in ("exc", "obs_layout", "e_flags", "raw", "pretty_text")}})
+    failed = {f[0] for f in fails}
+    drifts = [d for d in drifts if d not in failed]
+    if drifts:
+        ctx.add_drift(len(drifts), {"text": by_id[drifts[0]]["args"]["text"], "pretty_desc": obs[drifts[0]].get("pretty_text"),
+                                    "model": "PrettyLines(Denotation(groups)) of spec/PlssDoc.tla"})
     for c in cases[:3]:
         ctx.sample({"text": c["args"]["text"], "observed": obs.get(c["id"], {}).get("raw")})
     return fails
@@ -51,12 +56,14 @@ def run(ctx):
     thorough = ctx.tier == "thorough"
     # (3 groups x 2 section groups: 262 560 documents; 3 x 3 would be 19 million)
     base = {"MaxGroups": 3 if thorough else 2, "MaxSecs": 2, "TRIds": {1, 2}}
-    invs = ["OneTractPerSection", "ReadingOrder", "Bounded"]
+    invs = ["OneTractPerSection", "ReadingOrder", "Bounded", "PrettyRoundTrip", "PrettyHeaders"]
     ctx.tlc("PlssDoc", dict(base, Fault="none", EmitCases=False), invariants=invs, coverage=not thorough)
     if not thorough:
         ctx.require_actions(["AddGroup", "AddSec", "Finish"])
     ctx.tlc("PlssDoc", dict(base, MaxGroups=2, MaxSecs=2, Fault="last_group_only", EmitCases=False), invariants=invs,
             expect_violation="last_group_only", count=False)
+    ctx.tlc("PlssDoc", dict(base, MaxGroups=2, MaxSecs=2, Fault="pretty_one_header", EmitCases=False), invariants=invs,
+            expect_violation="pretty_one_header", count=False)
     res = ctx.tlc("PlssDoc", dict(base, Fault="none", EmitCases=True), invariants=["EmitCase"], workers=1, count=False)
     cases = []
     reps = 2 if thorough else 3
